@@ -10,7 +10,7 @@ RULE = ('table of (operation, state in which it can complete without waiting) x 
         'before: await of true conditions / done task / ended scope / instant, sleep 0, flag and tracked sets (changing or not), '
         'queue and channel put/get(buffered)/close (open or closed)/iteration, borrow/claim/give back, '
         'increase/decrease/set, pipe transfers (zero volume, unbounded, finite), interval/delay steps incl. period 0, collect '
-        '(empty and non-empty), leaving an (empty) scope block; each spinner must log a turn between the start marker 100 and the '
+        '(empty and non-empty), leaving an (empty) scope block, tickers whose steps pass no time (body takes exactly the period, period 0) next to activities that stay runnable; each spinner must log a turn between the start marker 100 and the '
         'completion marker 101 of the operation; the table is enumerated completely in every run (exhaustive over the table); '
         'thorough adds random prefixes; non-trivial = every case')
 
@@ -66,9 +66,37 @@ def case(name, setup, op, k, prefix=None):
             ['roots', ['prog', ['scope', 0, ['none']] + body]]]
 
 
+#: tickers whose steps pass no time: (name, ticker statement, period)
+TICKERS = [
+    ('interval-body-takes-the-period', ['interval', 1, 3, ['sleep', 1]], 1),
+    ('interval-body-takes-the-period-in-two-waits', ['interval', 1, 3, ['sleep', F(1, 2)], ['sleep', F(1, 2)]], 1),
+    ('interval-half', ['interval', F(1, 2), 4, ['sleep', F(1, 2)]], F(1, 2)),
+    ('interval-zero-steps', ['interval', 0, 3, ['log', 5]], 0),
+    ('delay-zero-steps', ['delayiter', 0, 3, ['log', 5]], 0),
+]
+
+
+def ticker_case(stmt, period, k, offset=0):
+    """the ticker next to k activities that stay runnable in every time step the ticker touches"""
+    steps = stmt[2] + 2
+    spin = []
+    for _ in range(steps):
+        spin += [['sleep', 0], None] * 6 + [['sleep', period]] if period else [['sleep', 0], None] * 6
+    roots = [['prog', ['sleep', offset], stmt, ['log', 101]]]
+    for i in range(k):
+        roots.append(['prog', ['sleep', offset]] + [['log', 200 + i] if x is None else x for x in spin])
+    return ['scenario', ['debug', 1], ['start', 0], ['flags', 1], ['locks', 0], ['roots'] + roots]
+
+
 def run(tier, seed, drv):
-    st = msuite.Suite(PID, drv, 'C20', TAGS)
+    st = msuite.Suite(PID, drv, 'C20', TAGS + ['tick', 'tbodyend', 'tbegin'])
     st.res.rule = RULE
+    for name, stmt, period in TICKERS:
+        for k in (1, 2, 3):
+            for offset in ((0,) if tier == 'quick' else (0, 1, F(1, 2))):
+                st.judge_params = str(k)
+                st.check(ticker_case(stmt, period, k, offset), meta={'operation': name, 'spinners': k}, nontrivial=lambda impl: True)
+                st.res.count('op:' + name)
     for name, setup, op in OPS:
         for k in (1, 2, 3):
             st.judge_params = str(k)
